@@ -250,7 +250,9 @@ Reasons(P, inj) ==
 Verdict(P, inj) ==
   LET r == Reasons(P, inj) IN
   IF r # {} THEN "no"
-  ELSE IF PartialFieldItems(P, inj) # {} \/ ForeignUnexported(P, inj) THEN "free" ELSE "yes"
+  \* an injector template that is a method or has type parameters is not a documented form: Wire may refuse it, but what it
+  \* reports as success must still compile and implement the template (C01)
+  ELSE IF PartialFieldItems(P, inj) # {} \/ ForeignUnexported(P, inj) \/ inj.form # "func" THEN "free" ELSE "yes"
 Accept(P, inj) == Verdict(P, inj) = "yes"
 
 (* ---- wiring: which source feeds which consumer ---------------------------- *)
